@@ -55,6 +55,7 @@ KINDS = {
     "res@/2":    {"k": "res", "addr": True, "al": 2},
     "win":       {"k": "win", "addr": False, "waw": 1, "wdw": 32, "sparse": None, "wal": 0},
     "win@":      {"k": "win", "addr": True, "waw": 2, "wdw": 32, "sparse": None, "wal": 0},
+    "win-anon":  {"k": "win", "addr": False, "waw": 1, "wdw": 32, "sparse": None, "wal": 0, "anon": True},
     # a (necessarily empty) window whose OWN alignment exceeds its size and the parent's alignment: irrelevant to where
     # the parent puts it
     "win/wal3":  {"k": "win", "addr": False, "waw": 1, "wdw": 32, "sparse": None, "wal": 3},
@@ -217,7 +218,7 @@ def harness_for(cfg):
             else:
                 def call(m, addr=addr, kd=kd, nm=nm):
                     return m.add_window(MemoryMap(addr_width=kd["waw"], data_width=kd["wdw"], alignment=kd["wal"]),
-                                        name=nm, addr=addr, sparse=kd["sparse"])
+                                        name=(None if kd.get("anon") else nm), addr=addr, sparse=kd["sparse"])
             # differential: the same call on a map that never saw the refused calls must have the same outcome
             ref_out = outcome(call, reference())
             try:
@@ -229,7 +230,7 @@ def harness_for(cfg):
                     ratio = 1
                 else:
                     obj = MemoryMap(addr_width=kd["waw"], data_width=kd["wdw"], alignment=kd["wal"])
-                    start, end, ratio = mm.add_window(obj, name=nm, addr=addr, sparse=kd["sparse"])
+                    start, end, ratio = mm.add_window(obj, name=(None if kd.get("anon") else nm), addr=addr, sparse=kd["sparse"])
                     exp_ratio = 1 if kd["sparse"] in (None, True) else ROOT_DW // kd["wdw"]
                     E.prove(ratio == exp_ratio, "window ratio")
                     need = (1 << kd["waw"]) // exp_ratio
